@@ -175,7 +175,7 @@ def batch_dot(gs1, ps1, cs1, gs2, ps2, cs2):
             ps[j1,j2] = (ps1[j1] + ps2[j2] + ipow(gs1[j1], gs2[j2]))%4
             gs[j1,j2] = (gs1[j1] + gs2[j2])%2
             cs[j1,j2] = cs1[j1] * cs2[j2]
-    gs = numpy.reshape(gs, (L1*L2,-1))
+    gs = numpy.reshape(gs, (L1*L2,N2)) # explicit width: -1 is ambiguous when a polynomial is empty
     ps = numpy.reshape(ps, (L1*L2,))
     cs = numpy.reshape(cs, (L1*L2,))
     return gs, ps, cs
